@@ -13,7 +13,7 @@ from harness.lib import Family, Verdict, call, deep_eq, drive, jval, strip_exc
 RULE = ("cases are drawn from random.Random(VERIF_SEED): shapes of order 1..4 (5 in thorough) with extents 1..4, "
         "index vectors with negative, boundary and out-of-range entries, every (N, M, dims|exclude_dims) "
         "combination for N<=3 (4 in thorough) valid and invalid, integer row matrices with repeated rows / "
-        "empty operands, matrix tuples with equal and unequal column counts; plus two enumerated (not sampled) "
+        "empty operands (0 x ncols, and enumerated: 1-d empty int / float, 0x0, 0xk of another width, 1x0, 0xkx1 on either side or both), matrix tuples with equal and unequal column counts; plus two enumerated (not sampled) "
         "streams: (a) shapes whose size is next to 2^31, 2^32, 2^53, 2^62 and 2^63-1 (one to 31 modes, with "
         "singleton modes) with subscripts / linear indices at the extremes, at the stride boundaries, negative, "
         "just out of range, round trips on indices sampled from the whole range, and index / subscript arrays of "
